@@ -400,7 +400,12 @@ def cmd_report(a):
              f"{len(muts)} mutants generated by tools/mutate.py (comparison/boolean/constant/arithmetic swaps, `not` removal, any/all, min/max, "
              "BaseException->Exception, condition forced true/false, statement deletion, `with` (lock) removal, return None, break/continue); "
              f"{len(res)} evaluated. A mutant that the pinned 81-test suite already fails is uninteresting; the others were run against the "
-             "checks mapped to the mutated file (truncated, then full quick tier), then against every other check (truncated).", "",
+             "checks mapped to the mutated file (the first 200 cases of each check's quick tier, seed 0, stopping at the first violating case). The evaluated "
+             "mutants are the first ones of run_function_on_graph.py plus a seeded random sample over all files. Survivors that looked like they might matter "
+             "were re-run by hand against the FULL quick tier of their checks (M1005, M0770, M0744, M1593, M0394, M0402: still silent, classified below; "
+             "M1059, M0902: real gaps, closed). The low kill ratio is mostly a property of the mutant population: nearly half of what survives the test-suite "
+             "sits in rendering cosmetics, argument validation that uberjob.run duplicates, defaults and dead code - none of which any of the 20 properties "
+             "speaks about. The sub-agent rounds (KILLS.md) are the sharper instrument; this sweep is the coarse net under them.", "",
              "| outcome | mutants |", "|---|---|"]
     for k, v in by.most_common():
         lines.append(f"| {k} | {v} |")
